@@ -1,8 +1,9 @@
 (* C06 — control variables are assigned before use and in range, on all paths. *)
 From Coq Require Import ZArith List.
+Import ListNotations.
 From V Require Import Valid.Hier Valid.Walk Valid.FlatRegion Valid.Run.
 From Coq Require Import Lia.
-From V Require Import Model.Pipe Model.PipeBounded Model.PipeBounded4 Model.Graph Model.Edits Model.Edits2 Model.JoinPath Model.Refine Model.CbPath.
+From V Require Import Model.Pipe Model.PipeBounded Model.PipeBounded4 Model.Graph Model.Edits Model.Edits2 Model.JoinPath Model.Refine Model.CbPath Model.LoopEdit Model.LoopSpec Model.LoopPath.
 
 Theorem C06_checker_sound : forall h, c06_check h = true -> CtrlSafe h.
 Proof. exact c06_check_sound. Qed.
@@ -76,3 +77,39 @@ Theorem C06_header_unification_ctrl_safe :
       CTrace (ehier top g') (resolve_flat (ehier top g')) true n e' ds.
 Proof. intros g top new var preds Ss names cls g'. exact (insert_cb_keeps_ctrace g top new var preds Ss names cls g' true). Qed.
 Print Assumptions C06_header_unification_ctrl_safe.
+
+(* loop rotation, for ALL graphs (no bound), loops with one header, in the strict reading: if every
+   decision list can be walked from an original block without getting stuck, the same holds after
+   LoopEdit.loop_rotate - each assignment block sets the backedge variable (and, with several exits,
+   the exit variable) right before the latch (and the exit branch) reads it, to a key of its table.
+   Hypotheses as in C01_loop_rotation_preserves_paths. *)
+Theorem C06_loop_rotation_ctrl_safe :
+  forall g top hd exits todo isback latch sexit ev bv names g',
+    let needs := match exits with _ :: _ :: _ => true | _ => false end in
+    loop_rotate g hd [hd] exits todo false [] isback latch sexit ev bv names = Ok g' ->
+    (NoDup todo /\
+     forall p, In p todo -> exists b, efind g p = Some b /\ nonbranch b /\ e_be b = [] /\ NoDup (e_jt b) /\
+                                      (forall a, In a names -> ~ In a (e_jt b))) ->
+    (NoDup names /\
+     forall a, In a names -> efind g a = None /\ ~ In a todo /\ a <> latch /\ a <> sexit /\ a <> top) ->
+    efind g latch = None /\ latch <> top /\ ~ In latch todo ->
+    (needs = true -> efind g sexit = None /\ sexit <> latch /\ sexit <> top /\ ~ In sexit todo) ->
+    NoDup exits /\ (forall x, In x exits -> In x (ekeys g)) /\ ~ In hd exits ->
+    In hd (ekeys g) -> ~ In top (ekeys g) ->
+    (forall x b t, efind g x = Some b -> In t (e_jt b) -> In t (ekeys g)) ->
+    (ev <> bv /\ forall x b, efind g x = Some b ->
+        match e_kind b with
+        | EAssign a => forall p, In p a -> fst p <> ev /\ fst p <> bv
+        | EBranch _ v _ => v <> ev /\ v <> bv
+        | EPlain _ => True
+        end) ->
+    forall n e e' ds,
+      (exists b, efind g n = Some b /\ e_kind b = EPlain 100) ->
+      E (Fl ev bv) e e' ->
+      CTrace (ehier top g) (resolve_flat (ehier top g)) true n e ds ->
+      CTrace (ehier top g') (resolve_flat (ehier top g')) true n e' ds.
+Proof.
+  intros g top hd exits todo isback latch sexit ev bv names g' needs.
+  exact (loop_rotate_keeps_ctrace g top hd exits todo isback latch sexit ev bv names g' true).
+Qed.
+Print Assumptions C06_loop_rotation_ctrl_safe.
